@@ -70,4 +70,62 @@ PROPS = {
         "trusted_base": ["Lean SHA-2 / AES reference cores", "RFC 5869 as transcribed in Constructions.lean"],
         "assumptions": ["the chunking law of the Go reader is established by correspondence (random chunkings), the prefix and limit laws by theorem"],
     },
+    "C01": {
+        "modules": ["Cose.Props.C01"], "families": ["msg:C01"], "spec_ops": [],
+        "n_quick": 500, "n_thorough": 60000,
+        "rule": "6 kinds x 24 algorithms x payload {nil, empty, raw of every CBOR length class, pre-encoded CBOR, typed map} x header maps (int/text labels; int, bstr, tstr, bool, array, nested-map values) "
+                "x external data {nil, empty, random} x 1-3 signers / 1-3 recipients incl. one nesting level; each produced message consumed tagged, untagged and CWT-tagged; "
+                "byte-exact comparison of the produced message (deterministic algorithms), of the bytes handed to the primitive and of the decoded view",
+        "trusted_base": ["model of the six message kinds (Cose.Msg.Model) hand-written, tied by correspondence; to-be-authenticated literals regenerated", "Lean crypto references for predicting verdicts"],
+        "assumptions": ["signature correctness (SigCorrect) for ECDSA / Ed25519: assumed in the theorem, cross-checked by the Lean EC reference in the run"],
+    },
+    "C02": {
+        "modules": ["Cose.Props.C02"], "families": ["msg:C02"], "spec_ops": [],
+        "n_quick": 400, "n_thorough": 50000,
+        "rule": "valid Sign1/Sign/Mac0/Mac messages, then per message 4 alterations: bit flip at a random position, truncation, trailing byte, byte replacement, other external data, "
+                "other key, splice of one top-level member from an independently produced message, change of kind (tag/prefix swap); model (with Lean HMAC/CBC-MAC/ECDSA/Ed25519) predicts accept/reject exactly",
+        "trusted_base": ["model of the six message kinds (Cose.Msg.Model) hand-written, tied by correspondence; to-be-authenticated literals regenerated", "Lean crypto references for predicting verdicts"],
+        "assumptions": ["existential unforgeability of the primitives is assumed; the theorems reduce acceptance of a changed authenticated item to a forgery"],
+    },
+    "C03": {
+        "modules": ["Cose.Props.C03"], "families": ["msg:C03"], "spec_ops": [],
+        "n_quick": 400, "n_thorough": 50000,
+        "rule": "valid Encrypt0/Encrypt messages over 12 AEADs, then alterations as for C02 (ciphertext, IV, protected bytes, prefix, shape, key, external data); after a failed Decrypt the harness "
+                "inspects the message object's Payload (PAYLOAD-LEAKED is reported if it is not the zero value)",
+        "trusted_base": ["model of the six message kinds (Cose.Msg.Model) hand-written, tied by correspondence; to-be-authenticated literals regenerated", "Lean crypto references for predicting verdicts"],
+        "assumptions": ["AEAD security assumed; uniqueness theorems (C12) reduce an accepted change to a tag forgery"],
+    },
+    "C04": {
+        "modules": ["Cose.Props.C04"], "families": ["msg:C04"], "spec_ops": ["msg.consume", "msg.produce"],
+        "n_quick": 400, "n_thorough": 40000,
+        "rule": "messages written by an independent mini-encoder with non-canonical protected buckets (non-shortest integers, reversed key order, explicit h'a0'), non-shortest heads, optional tags, "
+                "authenticated by the library's primitive over the RFC 9052 structure computed independently; recording Signer/Verifier/MACer/Encryptor wrappers expose the bytes handed to the primitive (tobe= / aad=), "
+                "compared with encode(spec structure) on both produce and verify side",
+        "trusted_base": ["Cose.Spec.Rfc9052 (reading of RFC 9052 sections 4.4, 5.3, 6.3)", "extractor recogniser for the toSign/toMac/toEnc literals"],
+        "assumptions": [],
+    },
+    "C05": {
+        "modules": ["Cose.Props.C05"], "families": ["msg:C05"], "spec_ops": [],
+        "n_quick": 300, "n_thorough": 40000,
+        "rule": "per case: a produce with the protected alg given as int / int64 / key.Alg / other width / another registered alg / text / nil / out-of-range; a produce with nil headers (defaults recorded) and its consume; "
+                "a consume with a key of another algorithm sharing the key bytes where the family allows (HMAC 256/64 vs 256/256, AES-MAC, CCM, GCM); a message without protected alg",
+        "trusted_base": ["model of the six message kinds (Cose.Msg.Model) hand-written, tied by correspondence; to-be-authenticated literals regenerated", "Lean crypto references for predicting verdicts"],
+        "assumptions": [],
+    },
+    "C06": {
+        "modules": ["Cose.Props.C06"], "families": ["msg:C06"], "spec_ops": [],
+        "n_quick": 500, "n_thorough": 60000,
+        "rule": "Encrypt0/Encrypt x 12 AEADs x unprotected {none, IV of length n-1,n,n+1,1,0, Partial IV of length 0..n+2, both, ill-typed} x key Base IV {absent, right length, wrong lengths, ill-typed}; "
+                "recording Encryptor exposes the nonce on Encrypt and Decrypt; random nonces must be published in header 5 with the algorithm's length",
+        "trusted_base": ["model of the six message kinds (Cose.Msg.Model) hand-written, tied by correspondence; to-be-authenticated literals regenerated", "Lean crypto references for predicting verdicts"],
+        "assumptions": ["non-repetition of crypto/rand output is not a theorem: proved instead that each encryption consumes its own block of the stream"],
+    },
+    "C09": {
+        "modules": ["Cose.Props.C09"], "families": ["msg:C09"], "spec_ops": [],
+        "n_quick": 400, "n_thorough": 40000,
+        "rule": "library-produced messages of the 6 kinds re-encoded (tagged and untagged input), RemoveCBORTag on tagged and CWT-tagged input; foreign non-canonical messages re-encoded then consumed again "
+                "(decode -> encode -> decode -> verify on the library, predicted by the model)",
+        "trusted_base": ["model of the six message kinds (Cose.Msg.Model) hand-written, tied by correspondence; to-be-authenticated literals regenerated", "Lean crypto references for predicting verdicts"],
+        "assumptions": ["value round trips of Key / Headers / recipients are tied by correspondence ops (map.unmarshal, msg.*), not by a general theorem"],
+    },
 }
